@@ -6,7 +6,7 @@ LEVEL = "other"
 
 
 def run(rep, tier, seed):
-    proved_tier(rep, "C12", seed, expected_min_obligations=2)
+    proved_tier(rep, "C12", seed, expected_min_obligations=1)
     bounded_C12.run(rep, tier, seed)
 
 
